@@ -157,6 +157,13 @@ impl varlink::Interface for ScriptIface {
                 "inv" => call.reply_invalid_parameter("p".into())?,
                 "mnf" => call.reply_method_not_found(full.clone())?,
                 "mni" => call.reply_method_not_implemented(full.clone())?,
+                // raw error replies (harness-only ops, not part of the modelled script language):
+                //   E:<name>   error <name> without parameters;   EP:<name>   with parameters of an unexpected shape
+                o if o.starts_with("E:") => call.reply_struct(Reply::error(o[2..].to_string(), None))?,
+                o if o.starts_with("EP:") => call.reply_struct(Reply::error(
+                    o[3..].to_string(),
+                    Some(json!({"method": 42, "interface": 42, "parameter": 42})),
+                ))?,
                 _ => {}
             }
         }
